@@ -43,14 +43,14 @@ func init() { RegisterSub("C08", "foreign", RunC08Foreign) }
 
 // c08fChunk is one column chunk under test with its reference rows.
 type c08fChunk struct {
-	file    string // description of the file (recipe or testdata name)
-	layout  string // native | no-dict-offset | no-dict-offset-no-index | testdata
-	codec   string
-	data    []byte
-	rg, col int
-	rows    [][]gen.Triple // reference: the Dremel triples of every row of the chunk
-	starts  []int64        // generated files: every offset the decoder may legitimately stand on (nil: unknown)
-	hasDict bool
+	file     string // description of the file (recipe or testdata name)
+	layout   string // native | no-dict-offset | no-dict-offset-no-index | testdata
+	codec    string
+	data     []byte
+	rg, col  int
+	rows     [][]gen.Triple // reference: the Dremel triples of every row of the chunk
+	starts   []int64        // generated files: every offset the decoder may legitimately stand on (nil: unknown)
+	hasDict  bool
 	badIndex bool // testdata: the recorded offset index contradicts the pages; never loaded
 }
 
@@ -672,7 +672,7 @@ func c08fTask(ctx *core.Ctx, c *c08fChunk, origin string, r *rand.Rand, nhist in
 			"file": c.file, "layout": c.layout, "codec": c.codec, "row_group": c.rg, "column": c.col, "rows": len(c.rows),
 			"dictionary_page": c.hasDict, "open": o.String(), "ops": c08fOpsString(small), "ops_before_shrinking": opsText,
 			"failing_op": fail.at, "origin": origin,
-			"replay": "open the file with the options, take RowGroups()[row_group].ColumnChunks()[column].Pages(), run ops (s<k> SeekToRow, r ReadPage, d ReadDictionary, i ColumnChunk.OffsetIndex()), then ReadPage to io.EOF",
+			"replay":      "open the file with the options, take RowGroups()[row_group].ColumnChunks()[column].Pages(), run ops (s<k> SeekToRow, r ReadPage, d ReadDictionary, i ColumnChunk.OffsetIndex()), then ReadPage to io.EOF",
 			"file_sha256": hashHex(c.data),
 		}
 		if c.layout == "no-dict-offset" || c.layout == "no-dict-offset-no-index" {
